@@ -163,7 +163,8 @@ theorem wsF_split (i : In) : ∃ g, i = g ++ wsF i ∧ GapC g := ws_split _ i
 /-! ### comments -/
 
 theorem commentDef_split (i c r : In) (h : commentDef i = .ok c r) :
-    ∃ b, i = 35 :: (b ++ (c ++ r)) ∧ blanksOnly b = true ∧ commentOK c = true ∧ (r = [] ∨ r.head? = some 10) := by
+    ∃ b, i = 35 :: (b ++ (c ++ r)) ∧ blanksOnly b = true ∧ commentOK c = true ∧
+      (r = [] ∨ r.head? = some 10 ∨ r.head? = some 13) := by
   have hok := commentDef_sound i c r h
   unfold commentDef at h
   split at h
@@ -173,39 +174,41 @@ theorem commentDef_split (i c r : In) (h : commentDef i = .ok c r) :
     refine ⟨t.takeWhile (fun c => c == 32 || c == 9), ?_, all_takeWhile _ t, hok, ?_⟩
     · have e1 : t = t.takeWhile (fun c => c == 32 || c == 9) ++ t.dropWhile (fun c => c == 32 || c == 9) := by
         simp [List.takeWhile_append_dropWhile]
-      have e2 := takeWhile_append_drop (fun x => x != 10) (t.dropWhile (fun c => c == 32 || c == 9))
+      have e2 := takeWhile_append_drop (fun x => x != 10 && x != 13) (t.dropWhile (fun c => c == 32 || c == 9))
       conv => lhs; rw [e1, ← e2]
     · generalize t.dropWhile (fun c => c == 32 || c == 9) = d
-      have : d.drop (d.takeWhile (fun x => x != 10)).length = d.dropWhile (fun x => x != 10) := by
+      have : d.drop (d.takeWhile (fun x => x != 10 && x != 13)).length = d.dropWhile (fun x => x != 10 && x != 13) := by
         induction d with
         | nil => rfl
         | cons a b ih =>
-          by_cases ha : (a != 10) = true
-          · simp [List.takeWhile_cons, List.dropWhile_cons, ha, ih]
+          by_cases ha : (a != 10 && a != 13) = true
+          · simp only [List.takeWhile_cons, List.dropWhile_cons, ha, if_true, List.length_cons, List.drop_succ_cons, ih]
           · simp [List.takeWhile_cons, List.dropWhile_cons, ha]
       rw [this]
-      cases hd : d.dropWhile (fun x => x != 10) with
+      cases hd : d.dropWhile (fun x => x != 10 && x != 13) with
       | nil => left; rfl
       | cons a b =>
         right
-        have := head_dropWhile' (fun x => x != 10) d a b hd
-        simp only [bne_eq_false_iff_eq] at this
-        simp [this]
+        have := head_dropWhile' (fun x => x != 10 && x != 13) d a b hd
+        simp only [Bool.and_eq_false_iff, bne_eq_false_iff_eq] at this
+        rcases this with h1 | h1
+        · left; simp [h1]
+        · right; simp [h1]
   · cases h
 
-/-- comment lines as the parser attaches them: each `#`, blanks, text, a line end and a gap -/
+/-- comment lines as the parser attaches them: each `#`, blanks, text, a line end (`e`: LF or CR) and a gap -/
 inductive CommentsS : List In → In → Prop
   | nil : CommentsS [] []
-  | cons {w0 b c w1 cs s} : wsOnly w0 = true → blanksOnly b = true → commentOK c = true → wsOnly (10 :: w1) = true →
-      CommentsS cs s → CommentsS (c :: cs) (w0 ++ 35 :: (b ++ (c ++ 10 :: (w1 ++ s))))
+  | cons {w0 b c w1 cs s} {e : Byte} : wsOnly w0 = true → blanksOnly b = true → commentOK c = true → (e = 10 ∨ e = 13) →
+      wsOnly w1 = true → CommentsS cs s → CommentsS (c :: cs) (w0 ++ 35 :: (b ++ (c ++ e :: (w1 ++ s))))
 
-theorem CommentsS.snoc {cs : List In} {s : In} (h : CommentsS cs s) {w0 b c w1 : In} (h0 : wsOnly w0 = true) (hb : blanksOnly b = true)
-    (hc : commentOK c = true) (h1 : wsOnly (10 :: w1) = true) :
-    CommentsS (cs ++ [c]) (s ++ (w0 ++ 35 :: (b ++ (c ++ 10 :: w1)))) := by
+theorem CommentsS.snoc {cs : List In} {s : In} (h : CommentsS cs s) {w0 b c w1 : In} {e : Byte} (h0 : wsOnly w0 = true)
+    (hb : blanksOnly b = true) (hc : commentOK c = true) (he : e = 10 ∨ e = 13) (h1 : wsOnly w1 = true) :
+    CommentsS (cs ++ [c]) (s ++ (w0 ++ 35 :: (b ++ (c ++ e :: w1)))) := by
   induction h with
-  | nil => simpa using CommentsS.cons h0 hb hc h1 .nil
-  | cons a1 a2 a3 a4 _ ih =>
-    have := CommentsS.cons a1 a2 a3 a4 ih
+  | nil => simpa using CommentsS.cons h0 hb hc he h1 .nil
+  | cons a1 a2 a3 a4 a5 _ ih =>
+    have := CommentsS.cons a1 a2 a3 a4 a5 ih
     simpa using this
 
 /-- `parse_preceding_comments`: either the rest is empty (and whatever follows will fail), or what was
@@ -241,29 +244,36 @@ theorem pc_split : ∀ (k : Nat) (i : In) (acc : List In) (s0 : In), CommentsS a
           · cases r with
             | nil => simp at hr
             | cons r0 rt =>
-              simp at hr; subst hr
+              have hr0 : r0 = 10 ∨ r0 = 13 := by
+                rcases hr with hr | hr
+                · left; simpa using hr
+                · right; simpa using hr
+              have hr0ws : isMultispace r0 = true := by rcases hr0 with rfl | rfl <;> decide
               cases w1 with
               | nil =>
                 -- impossible: the line end is white space, so it was skipped
                 exfalso
-                have h10 : whitespaceOnly (10 :: rt) = whitespaceOnly rt := multispace0_cons_ws 10 rt (by decide)
+                have h10 : whitespaceOnly (r0 :: rt) = whitespaceOnly rt := multispace0_cons_ws r0 rt hr0ws
                 simp only [List.nil_append] at hw1
                 rw [h10] at hw1
                 obtain ⟨w, hw, _⟩ := whitespaceOnly_split rt
-                have : (10 :: rt).length = (whitespaceOnly rt).length := by rw [← hw1]
+                have : (r0 :: rt).length = (whitespaceOnly rt).length := by rw [← hw1]
                 have : rt.length = w.length + (whitespaceOnly rt).length := by conv => lhs; rw [hw]; simp
                 simp at *; omega
               | cons a w1' =>
-                have ha : a = 10 := by
+                have ha : a = r0 := by
                   have := congrArg List.head? hw1; simpa using this.symm
                 subst ha
-                have hnext := ih (whitespaceOnly (10 :: rt)) (acc ++ [c]) (s0 ++ (w0 ++ 35 :: (b ++ (c ++ 10 :: w1'))))
-                  (h.snoc hw0o hb hcok hw1o)
+                have hw1o' : wsOnly w1' = true := by
+                  simp only [wsOnly, List.all_cons, Bool.and_eq_true] at hw1o ⊢
+                  exact hw1o.2
+                have hnext := ih (whitespaceOnly (a :: rt)) (acc ++ [c]) (s0 ++ (w0 ++ 35 :: (b ++ (c ++ a :: w1'))))
+                  (h.snoc hw0o hb hcok hr0 hw1o')
                 rcases hnext with ⟨s, hs, hS⟩ | hnil
                 · left
                   refine ⟨s, ?_, hS⟩
                   rw [← hs]
-                  have e2 : (10 :: rt) = 10 :: w1' ++ whitespaceOnly (10 :: rt) := by simpa using hw1
+                  have e2 : (a :: rt) = a :: w1' ++ whitespaceOnly (a :: rt) := by simpa using hw1
                   conv => lhs; rw [hw0, e, e2]
                   simp
                 · right; exact hnil
